@@ -42,7 +42,7 @@ def build(cls, n, ks, vs):
         if i < n:
             k = KEYS[conc(ks[i], 0, NK - 1)]
             order.append(k)
-            d._values[k] = vs[i]
+            d._values[k] = None if (i < 2 and vs[i] == -1) else vs[i]      # a stored null (Haystack's None) is a value like any other (first two slots)
     d._order = list(order)
     model = [(k, d._values[k]) for k in order]
     return d, model
